@@ -234,7 +234,8 @@ def mutate_pattern(rng, p):
 
 # every construct individually (each class, escape and hexadecimal form, every quantifier form)
 def construct_corpus():
-    out = ["[\\x7FFFFFF0-\\x7FFFFFFF]", "\\x7FFFFFFF", "[a\\x7FFFFFFF]", "[\\x7FFFFFFE-\\x7FFFFFFF]+b",      # ranges that end at the largest rune
+    out = ["a{18446744073709551616}", "a{18446744073709551618,3}", "a{9223372036854775808}", "a{1,18446744073709551616}", "a{99999999999999999999,}b",      # counts that do not fit into an int
+           "[\\x7FFFFFF0-\\x7FFFFFFF]", "\\x7FFFFFFF", "[a\\x7FFFFFFF]", "[\\x7FFFFFFE-\\x7FFFFFFF]+b",      # ranges that end at the largest rune
            "a\\xEEEE", "a\\xEEEE?b", "[\\xEEE0-\\xEEEF]", "\\xEEEE*", "\\xEEEE", "(a|\\xEEEE)+b", "[^\\xEEEE]", "a\\xEEEE{2}",      # the character the direct route uses as end marker
            "a", ".", "$", "^a", "a$", "^if", "^ab", "^a^b", "^-", "^abc", "^_x", "if", "^^a", "a^", "a|b", "ab", "(a)", "(a|b)c", "a|", "()", "[]", "[a]", "[^a]", "[a-c]", "[^a-c]", "[c-a]", "[-]", "[a-]", "[--0]",
            "a?", "a*", "a+", "a{0}", "a{1}", "a{2}", "a{0,}", "a{1,}", "a{2,}", "a{0,0}", "a{0,1}", "a{1,2}", "a{2,4}", "a{3,1}", "a??", "a*?", "a+?", "a{1,2}?",
